@@ -112,10 +112,78 @@ def run_one(chk, drv, sels, owns, schedule, lines, stats, names):
     pyprog.drop_module(mod)
 
 
+def free_search(chk, stats, n_sched):
+    """the step skeleton could not be extracted (or is empty): search for a failing schedule on the
+    implementation alone, stopping the threads before every line of the tooling functions"""
+    import importlib
+    import inspect
+    import ptera
+    ov = importlib.import_module("ptera.overlay")
+    tr = importlib.import_module("ptera.transform")
+    stops = set()
+    for mod, objs in ((ov, [ov._tooler, ov._untooler]),
+                      (tr, [tr.SyncedStackedTransforms.push, tr.SyncedStackedTransforms.pop,
+                            tr.SyncedStackedTransforms._apply, tr.StackedTransforms.push,
+                            tr.StackedTransforms.pop, tr.StackedTransforms.get])):
+        import os
+        for o in objs:
+            src, first = inspect.getsourcelines(o)
+            for i in range(len(src)):
+                stops.add((os.path.basename(mod.__file__), first + i))
+    rng = chk.rng
+    for k in range(n_sched):
+        sels, owns = CONFIGS[k % len(CONFIGS)]
+        i, j = rng.randrange(0, 40), rng.randrange(0, 40)
+        schedule = [0] * i + [1] * j + [0] * 60 + [1] * 60
+        mod = pyprog.make_module(SRC, "verif_c08_free")
+        orig = mod.f.__code__
+        probes = [ptera.Probe(s, env=mod.__dict__) for s in sels]
+        outs = [p.accum() for p in probes]
+        rets = [None, None]
+        args = [3, 4]
+
+        def worker(tid, ctrl):
+            probes[tid].__enter__()
+            rets[tid] = mod.f(args[tid])
+            probes[tid].__exit__(None, None, None)
+        try:
+            S.run_free([worker, worker], stops, schedule)
+        except S.Stuck:
+            stats["stuck"] += 1
+            continue
+        except Exception as e:
+            chk.violation("oracle", "a thread raised %s: %s under a forced interleaving (sequentially nothing is raised)" % (
+                type(e).__name__, str(e)[:160]), {"selectors": sels, "schedule": "thread 0: %d stops, thread 1: %d stops, then both to the end" % (i, j)})
+            continue
+        finally:
+            pass
+        stats["schedules"] += 1
+        chk.count(("free", k), nontrivial=True)
+        final = impl_state(mod, orig)
+        for tid in range(2):
+            if list(outs[tid]) != expected_events(sels[tid], args[tid]) or rets[tid] != (args[tid] + 1) * 2:
+                chk.violation("oracle", "thread %d (probe %r) observed %r and got %r; sequentially it observes %r and gets %r" % (
+                    tid, sels[tid], list(outs[tid]), rets[tid], expected_events(sels[tid], args[tid]), (args[tid] + 1) * 2),
+                    {"selectors": sels, "schedule": "thread 0: %d stops, thread 1: %d stops, then both to the end" % (i, j)})
+        if not final["orig"] or final["count"] != 0 or final["caps"]:
+            chk.violation("oracle", "all threads finished but f: original code=%s instrument_count=%s captures=%s" % (
+                final["orig"], final["count"], final["caps"]),
+                {"selectors": sels, "schedule": "thread 0: %d stops, thread 1: %d stops, then both to the end" % (i, j)})
+        pyprog.drop_module(mod)
+
+
 def run(chk):
     drv = chk.open_driver()
     rng = chk.rng
     info = drv.ask({"op": "sched", "owns": [[0], [1]], "fuel": 400})
+    if not info["tool_lines"] or not info["untool_lines"]:
+        # broken tie (recorded by the proof leg): no step skeleton to follow
+        stats = {"schedules": 0, "steps": 0, "disagreements": 0, "stuck": 0}
+        chk.cov["rule"] = ("step skeleton unavailable: model-free forced interleavings of two threads, stopping before "
+                           "every source line of the tooling functions")
+        free_search(chk, stats, 120 if chk.tier == "quick" else 1500)
+        chk.cov["correspondence"]["schedules"] = stats
+        return
     lines = {"tool": [tuple(x) for x in info["tool_lines"]], "untool": [tuple(x) for x in info["untool_lines"]]}
     plen = info["program_length"]
     chk.cov["model_search"] = {"disciplined": info["disciplined"], "bad_schedule": info["bad_schedule"],
